@@ -40,6 +40,8 @@ def main():
     wd = threading.Timer(limit_s, _expired)
     wd.daemon = True
     wd.start()
+    import srccov
+    srccov.start(common.REPO)
     try:
         mod = importlib.import_module("props." + prop.lower())
     except ImportError as e:
